@@ -23,11 +23,12 @@ import (
 var concVerbose bool
 
 type concScn struct {
-	ring      []uint64
-	ops       []string
-	maint     bool
-	fine      bool // stabilize is not atomic in this scenario
-	maintNode uint64
+	ring        []uint64
+	ops         []string
+	maint       bool
+	fine        bool // stabilize is not atomic in this scenario
+	maintNode   uint64
+	maintRounds int
 }
 
 func parseConc(name string) *concScn {
@@ -40,6 +41,12 @@ func parseConc(name string) *concScn {
 		s.maint = true
 		s.fine = true
 		fmt.Sscan(strings.TrimPrefix(p[2], "maint=fine:"), &s.maintNode)
+	}
+	if strings.HasPrefix(p[2], "maint=fine2:") { // two stabilize rounds on one node, each in its own thread
+		s.maint = true
+		s.fine = true
+		s.maintRounds = 2
+		fmt.Sscan(strings.TrimPrefix(p[2], "maint=fine2:"), &s.maintNode)
 	}
 	for _, f := range strings.Split(strings.TrimPrefix(p[0], "ring="), ",") {
 		var v uint64
@@ -177,6 +184,22 @@ func runConc(s *concScn, prefix []int, kv bool, extra func(w *chordlib.World) []
 						out.joined[x] = true
 					}
 				})
+			case "jl": // a node that joins and, once joined, leaves again
+				n := chordlib.NewNode(x, nil)
+				w.Net.Add(n)
+				vsched.GoNamed(op, false, func() {
+					err := n.Join(w.Net.ViewOf(x, y))
+					out.errs[op] = err
+					if err != nil {
+						return
+					}
+					n.Leave()
+					if n.VerifState() != chord.Left {
+						// still a member: it takes part in the final checks
+						out.joined[x] = true
+						newNodes = append(newNodes, n)
+					}
+				})
 			case "leave":
 				n := w.Ring.Get(x)
 				vsched.GoNamed(op, false, func() {
@@ -210,6 +233,13 @@ func runConc(s *concScn, prefix []int, kv bool, extra func(w *chordlib.World) []
 			nodes := w.Ring.Sorted()
 			if s.maintNode != 0 {
 				nodes = []*rchord.LocalNode{w.Ring.Get(s.maintNode)}
+			}
+			for extra := 1; extra < s.maintRounds; extra++ {
+				vsched.GoNamed("maint2", false, func() {
+					for _, n := range nodes {
+						n.VerifStabilize()
+					}
+				})
 			}
 			vsched.GoNamed("maint", false, func() {
 				for _, n := range nodes {
@@ -367,9 +397,6 @@ func concScenarios(thorough bool) []string {
 	}
 	if thorough {
 		out = append(out,
-			mk([]uint64{A, B}, fmt.Sprintf("join:%d:%d;join:%d:%d", j1, A, j2, A), 1),
-			mk([]uint64{A, B, C}, fmt.Sprintf("leave:%d;join:%d:%d", B, j1, C), 1),
-			mk([]uint64{A, B, C}, fmt.Sprintf("leave:%d;leave:%d", A, B), 1),
 			mk([]uint64{A, B, C}, fmt.Sprintf("leave:%d;leave:%d;join:%d:%d", A, B, j1, C), 0),
 			mk([]uint64{A, B, C}, fmt.Sprintf("join:%d:%d;join:%d:%d;leave:%d", j1, A, j2, C, C), 0),
 		)
@@ -386,10 +413,27 @@ func fineStabilizeScenarios(thorough bool) []string {
 	out := []string{
 		fmt.Sprintf("ring=%s|join:%d:%d|maint=fine:%d", joinU([]uint64{A, B}), j, A, A),
 		fmt.Sprintf("ring=%s|leave:%d|maint=fine:%d", joinU([]uint64{A, B, C}), B, A),
+		// the successor list returns to an earlier value while an older stabilize round is still in flight
+		fmt.Sprintf("ring=%s|jl:%d:%d|maint=fine:%d", joinU([]uint64{A, B}), j, A, A),
 	}
 	if thorough {
 		out = append(out, fmt.Sprintf("ring=%s|join:%d:%d|maint=fine:%d", joinU([]uint64{A, B, C}), j, C, A),
 			fmt.Sprintf("ring=%s|leave:%d|maint=fine:%d", joinU([]uint64{A, B}), B, A))
 	}
 	return out
+}
+
+// concMaintScenarios: membership races with the periodic maintenance (checkPredecessor +
+// stabilize on every node) running as a third thread.
+func concMaintScenarios() []string {
+	const A, B, C = uint64(1) << 44, uint64(1) << 45, uint64(3) << 44
+	j1, j2 := A+(B-A)/3, A+2*(B-A)/3
+	mk := func(ring []uint64, ops string) string {
+		return fmt.Sprintf("ring=%s|%s|maint=1", joinU(ring), ops)
+	}
+	return []string{
+		mk([]uint64{A, B}, fmt.Sprintf("join:%d:%d;join:%d:%d", j1, A, j2, A)),
+		mk([]uint64{A, B, C}, fmt.Sprintf("leave:%d;join:%d:%d", B, j1, C)),
+		mk([]uint64{A, B, C}, fmt.Sprintf("leave:%d;leave:%d", A, B)),
+	}
 }
